@@ -3,7 +3,7 @@
    regular-expression engine does (backtracking from position 0, ".*" greedy, first success
    wins) and [is_match] what Regex::is_match reports (the match found must span the whole string);
    [fn] is fnmatch on that sequence: does SOME way of matching the whole string exist. *)
-Require Import GlobEngine GlobBT Glob.
+Require Import GlobEngine GlobBT Glob GlobSpec GlobParse.
 From Coq Require Import List Arith Bool.
 Import ListNotations.
 
@@ -20,8 +20,46 @@ Proof.
 Qed.
 Print Assumptions C12_whole_string.
 
-(* parser half (glob text -> regex text -> Oniguruma's reading): executable model validated against the
-   implementation and against glibc fnmatch on every run; its proof is not done (see DESIGN.md) *)
+(* parser half: a glob is a sequence of ordinary characters, escaped characters, "?", "*" and bracket
+   expressions (items: characters, ranges lo-hi, named classes; optionally negated with "!").  [show] is its
+   spelling, [sem] its meaning, [wf_item] what "well-formed" means (Spec/GlobSpec.v).  For every such glob
+   and every subject, the text pipeline of glob.rs (glob_to_regex, extract_bracket_expr, regex_push_literal)
+   followed by the engine's reading of the regex text answers exactly fnmatch of the meaning. *)
+Theorem C12_regex_text : forall g, forallb wf_item g = true ->
+  glob_to_regex (S (length (show g))) (show g) [] = GText (tr g).
+Proof. exact glob_to_regex_text. Qed.
+Print Assumptions C12_regex_text.
+
+Theorem C12_regex_reading : forall g ci, forallb wf_item g = true ->
+  parse_bre (S (length (tr g))) ci (tr g) = Some (sem ci g).
+Proof. exact parse_bre_meaning. Qed.
+Print Assumptions C12_regex_reading.
+
+Theorem C12_glob_is_fnmatch : forall g ci s, forallb wf_item g = true ->
+  glob_match ci (show g) s = if fn (sem ci g) s then 1 else 0.
+Proof. exact glob_match_is_fnmatch. Qed.
+Print Assumptions C12_glob_is_fnmatch.
+
+(* the two irregular endings: an unescaped final backslash matches nothing; a final "[" stands for itself *)
+Theorem C12_trailing_backslash : forall g ci s, forallb wf_item g = true -> glob_match ci (show g ++ [ch_bs]) s = 0.
+Proof. exact trailing_backslash_never. Qed.
+Print Assumptions C12_trailing_backslash.
+
+Theorem C12_lone_bracket : forall g ci s, forallb wf_item g = true ->
+  glob_match ci (show g ++ [ch_lb]) s = if fn (sem ci g ++ [RSingle (ci_eq ci ch_lb)]) s then 1 else 0.
+Proof. exact lone_bracket_literal. Qed.
+Print Assumptions C12_lone_bracket.
+
+(* the hypotheses are satisfiable: a[!b-d[:digit:]]*\?  is well-formed and spelled as expected *)
+Example C12_wf_witness :
+  let g := [GLit 97; GBr true [BRange 98 100; BClass 1]; GStar; GEsc 63] in
+  forallb wf_item g = true /\
+  show g = [97; 91; 33; 98; 45; 100; 91; 58; 100; 105; 103; 105; 116; 58; 93; 93; 42; 92; 63] /\
+  fn (sem false g) [97; 120; 121; 63] = true /\ fn (sem false g) [97; 99; 63] = false /\ fn (sem false g) [97; 55; 63] = false.
+Proof. vm_compute. repeat split. Qed.
+
+(* outside the well-formed fragment (a "]" or "-" as a list member, an unclosed bracket in the middle, collating
+   symbols): the executable model is validated against the implementation and against glibc fnmatch on every run *)
 Example C12_witness :
   (* "a[!b-d]*\\?" on "axyz?" and on "ac?" ; "[[:digit:]]" ; stray "[" ; trailing backslash ; -iname *)
   glob_match false [97; 91; 33; 98; 45; 100; 93; 42; 92; 63] [97; 120; 121; 122; 63] = 1 /\
